@@ -16,6 +16,7 @@ import (
 	"google.golang.org/grpc/credentials/insecure"
 	"google.golang.org/grpc/metadata"
 	"google.golang.org/grpc/status"
+	"google.golang.org/protobuf/types/known/emptypb"
 )
 
 type grpcCase struct {
@@ -48,6 +49,7 @@ type grpcObs struct {
 type grpcFixture struct {
 	ls       *server.LockServer
 	pw       string
+	cc       *grpc.ClientConn
 	cl       pb.LDLMClient // one connection = one server session; metadata is per call
 	heldKey  string
 	degraded string // non-empty: the baseline (one held lock) could not be established, for a reason other than authentication
@@ -96,6 +98,7 @@ func newGrpcFixture(pw string) (*grpcFixture, error) {
 		return nil, fmt.Errorf("grpc.NewClient: %v", err)
 	}
 	f.closers = append([]func(){func() { cc.Close() }}, f.closers...)
+	f.cc = cc
 	f.cl = pb.NewLDLMClient(cc)
 	return f, nil
 }
@@ -200,7 +203,9 @@ func runGrpc(data []byte, out *json.Encoder) {
 					o.RespLocked, perr = r.Locked, r.Error
 				}
 			default:
-				rerr = fmt.Errorf("unknown method %q", c.Method)
+				// a unary method this harness has no request for (the descriptor of the tree lists it): an empty
+				// message decodes into any protobuf message, so the call reaches the interceptor chain
+				rerr = f.cc.Invoke(ctx, "/"+pb.LDLM_ServiceDesc.ServiceName+"/"+c.Method, &emptypb.Empty{}, &emptypb.Empty{})
 			}
 			cancel()
 			if perr != nil {
